@@ -7,7 +7,7 @@ git diff --quiet || { echo "worktree dirty"; exit 2; }
 git apply "$P" || { echo "patch does not apply"; exit 2; }
 cd /verif
 for c in "$@"; do
-  OUT=$(PYTHONPATH="$W" VERIF_EVIDENCE_DIR=/tmp/ev_scratch timeout ${MUT_TIMEOUT:-1500} ./check $c --tier ${MUT_TIER:-quick} ${MUT_ONLY:+--only "$MUT_ONLY"} 2>&1); rc=$?
+  OUT=$(PYTHONPATH="$W" VERIF_EVIDENCE_DIR=/tmp/ev_scratch timeout ${MUT_TIMEOUT:-1500} ./check $c --tier ${MUT_TIER:-quick} --nproc ${MUT_NPROC:-16} ${MUT_ONLY:+--only "$MUT_ONLY"} 2>&1); rc=$?
   echo "== $c rc=$rc $(echo "$OUT" | grep -c '^VIOLATION') violations; $(echo "$OUT" | grep -E "^$c (quick|thorough)" | tail -1)"
   echo "$OUT" | grep -E "^  key:|HARNESS-ERROR" | sed -e "s/.*\]:/  /" | sort | uniq -c | sort -rn | head -${MUT_LINES:-4}
 done
